@@ -42,6 +42,7 @@ func init() {
 			{"C01.workers-started", "every loop that starts pool workers starts one per unit of the worker count (none is skipped for n == 1)", 6, func(c *Ctx) { c.workersStarted() }},
 			{"C01.feeder-watches-group", "the select that feeds pool workers watches the errgroup context, so a failed worker stops the feeder", 5, func(c *Ctx) { c.feederWatchesGroup() }},
 			{"C01.validate-file-keys", "Plan.Validate stores and looks up the open seed files under the same key", 1, c01ValidateFileKeys},
+			{"C01.clone-aligned", "block cloning is attempted only for ranges that hold a complete block (no wrapped or zero clone length, no partial copy beyond the range)", 6, c01CloneAligned},
 			{"C01.errors-not-dropped", "no error of the operations this property depends on is dropped", 1, func(c *Ctx) { c.errorsNotDropped("C01") }},
 		},
 	})
@@ -1152,4 +1153,145 @@ func c01ValidateFileKeys(c *Ctx) {
 	sort.Strings(detail)
 	c.verdict(okK, "Plan.Validate:file-keys", fn.Pos(), "the seed file handles are stored and looked up under the same key expression",
 		"the map of open seed files is filled under one key and read under another ("+strings.Join(detail, "; ")+"): for some seed paths the lookup yields a nil file, a valid seed fails validation")
+}
+
+// c01CloneAligned: the clone paths (file systems with block cloning) split a range into a part
+// before the first block boundary, whole blocks, and a part after the last boundary:
+// alignStart = (off/bs + 1)*bs, alignEnd = (off+len)/bs*bs.  A range that holds no complete
+// block has alignStart >= alignEnd: the unsigned length alignEnd-alignStart wraps around or is 0
+// (which FICLONERANGE takes for "to the end of the source"), and the partial copies
+// alignStart-off / off+len-alignEnd reach beyond the range.  Every subtraction that involves one
+// of the two aligned values, and every CloneRange call, lies behind the alignStart < alignEnd
+// edge.  (Cannot be exercised on the file systems of this sandbox; the arithmetic is decided
+// from the code.)
+func c01CloneAligned(c *Ctx) {
+	n := 0
+	for _, key := range []string{"fileSeedSegment.clone", "nullChunkSection.clone"} {
+		fn := c.mustFn(key)
+		if fn == nil {
+			continue
+		}
+		var bs *ssa.Parameter
+		for _, p := range fn.Params {
+			if p.Name() == "blocksize" {
+				bs = p
+			}
+		}
+		if bs == nil && len(fn.Params) > 0 {
+			bs = fn.Params[len(fn.Params)-1]
+		}
+		var isBS func(v ssa.Value) bool
+		isBS = func(v ssa.Value) bool {
+			if bs != nil && isParam(v, bs) {
+				return true
+			}
+			// the block size handed on to a new helper ("nextBlockStart(offset, blocksize)")
+			if pr, ok := v.(*ssa.Parameter); ok && newHelpers[pr.Parent()] {
+				as := boundArgs(pr)
+				for _, a := range as {
+					if !isBS(a) {
+						return false
+					}
+				}
+				return len(as) > 0
+			}
+			return false
+		}
+		// alignKind: 1 = the first block boundary behind a position, (x/bs+1)*bs or x-x%bs+bs;
+		// 2 = the last boundary at or before a position, x/bs*bs or x-x%bs; also as the single
+		// result of a new helper
+		var alignKind func(v ssa.Value, depth int) int
+		alignKind = func(v ssa.Value, depth int) int {
+			if depth > 4 {
+				return 0
+			}
+			switch x := v.(type) {
+			case *ssa.BinOp:
+				switch x.Op {
+				case token.MUL:
+					inner := x.X
+					if isBS(x.X) {
+						inner = x.Y
+					} else if !isBS(x.Y) {
+						return 0
+					}
+					if q, ok := inner.(*ssa.BinOp); ok {
+						if q.Op == token.QUO && isBS(q.Y) {
+							return 2
+						}
+						if q.Op == token.ADD {
+							if k, isK := q.Y.(*ssa.Const); isK && k.Value != nil && constInt64(k) == 1 {
+								if q2, ok := q.X.(*ssa.BinOp); ok && q2.Op == token.QUO && isBS(q2.Y) {
+									return 1
+								}
+							}
+						}
+					}
+				case token.ADD:
+					if isBS(x.Y) && alignKind(x.X, depth+1) == 2 {
+						return 1
+					}
+					if isBS(x.X) && alignKind(x.Y, depth+1) == 2 {
+						return 1
+					}
+				case token.SUB:
+					if r, ok := x.Y.(*ssa.BinOp); ok && r.Op == token.REM && isBS(r.Y) && sameValue(r.X, x.X) {
+						return 2
+					}
+				}
+			case *ssa.Call:
+				if h := x.Call.StaticCallee(); h != nil && newHelpers[h] && len(h.Blocks) > 0 {
+					kind := -1
+					for _, r := range returnsOf(h) {
+						if len(r.Results) != 1 {
+							return 0
+						}
+						k := alignKind(r.Results[0], depth+1)
+						if kind >= 0 && k != kind {
+							return 0
+						}
+						kind = k
+					}
+					if kind > 0 {
+						return kind
+					}
+				}
+			}
+			return 0
+		}
+		isStart := func(v ssa.Value) bool { return alignKind(v, 0) == 1 }
+		isEnd := func(v ssa.Value) bool { return alignKind(v, 0) == 2 }
+		acc := relAcc(token.LSS, isStart, isEnd)
+		m := 0
+		instrs(fn, func(_ *ssa.BasicBlock, _ int, ins ssa.Instruction) {
+			if ins.Parent() != fn {
+				return
+			}
+			what := ""
+			switch x := ins.(type) {
+			case *ssa.BinOp:
+				if x.Op == token.SUB && isUnsigned(x.Type()) && (isStart(x.X) || isStart(x.Y) || isEnd(x.X) || isEnd(x.Y)) {
+					what = "a length computed from an aligned bound"
+				}
+			case *ssa.Call:
+				if callee(x) == "desync.CloneRange" {
+					what = "CloneRange"
+				}
+			}
+			if what == "" {
+				return
+			}
+			m++
+			n++
+			okG, _ := guarded(fn, ins, acc)
+			c.verdict(okG, fmt.Sprintf("%s:aligned-op%d", key, m), ins.Pos(), what+" only where the range holds a complete block (alignStart < alignEnd)",
+				what+" is reachable although the range may hold no complete block: the unsigned length alignEnd-alignStart wraps around (clone fails, a valid seed makes the extract fail) or is 0 (FICLONERANGE clones to the end of the source: the target grows, success is reported), and the partial copies write beyond both ends of the range")
+		})
+		if m == 0 {
+			c.bad(key+":aligned-ops", fn.Pos(), "no aligned arithmetic or CloneRange call found in the clone function")
+		}
+	}
+	if n == 0 {
+		c.bad("clone-aligned", token.NoPos, "clone functions not found")
+	}
 }
